@@ -1,0 +1,188 @@
+//go:build verif
+// +build verif
+
+// Package verifhook holds verification hooks (build tag "verif").
+//
+// BeforeWrite is called immediately before every durable write of the node
+// (LevelDB put/delete/batch, WAL line, signer file steps). It counts the
+// writes and, driven by environment variables or by the in-process API, can
+//   - append "<n> <site>" to a log file            (VERIF_WRITE_LOG)
+//   - kill the process before the k-th armed write (VERIF_CRASH_AT=k)
+//   - make the k-th armed write fail               (VERIF_FAIL_AT=k, only at
+//     call sites that can return an error)
+//
+// Counting of "armed" writes starts when the file named by VERIF_ARM_FILE
+// exists (checked on every write until it does), when Arm() is called, or at
+// once when neither VERIF_ARM_FILE is set nor Disarmed() was requested.
+// VERIF_SITE_FILTER (substring) restricts crash/fail counting to matching sites.
+//
+// Point(site) sleeps for the duration configured with VERIF_DELAY
+// ("site=dur,site2=dur" or "*=dur") to widen interleavings.
+package verifhook
+
+import (
+	"errors"
+	"fmt"
+	"os"
+	"strconv"
+	"strings"
+	"sync"
+	"syscall"
+	"time"
+)
+
+var (
+	mtx        sync.Mutex
+	total      int64 // all writes seen
+	armedCount int64 // writes seen since armed
+	armed      bool
+	armFile    string
+	crashAt    int64
+	failAt     int64
+	siteFilter string
+	logFile    *os.File
+	delays     map[string]time.Duration
+	observer   func(n int64, site string)
+	pointFn    func(site string)
+)
+
+// ErrInjected is returned by BeforeWrite for an injected write failure.
+var ErrInjected = errors.New("verifhook: injected write failure (no space left on device)")
+
+func init() {
+	crashAt = envInt("VERIF_CRASH_AT")
+	failAt = envInt("VERIF_FAIL_AT")
+	armFile = os.Getenv("VERIF_ARM_FILE")
+	siteFilter = os.Getenv("VERIF_SITE_FILTER")
+	armed = armFile == "" && os.Getenv("VERIF_DISARMED") == ""
+	if p := os.Getenv("VERIF_WRITE_LOG"); p != "" {
+		f, err := os.OpenFile(p, os.O_WRONLY|os.O_CREATE|os.O_APPEND, 0644)
+		if err == nil {
+			logFile = f
+		}
+	}
+	if d := os.Getenv("VERIF_DELAY"); d != "" {
+		delays = make(map[string]time.Duration)
+		for _, kv := range strings.Split(d, ",") {
+			p := strings.SplitN(kv, "=", 2)
+			if len(p) != 2 {
+				continue
+			}
+			if dur, err := time.ParseDuration(p[1]); err == nil {
+				delays[p[0]] = dur
+			}
+		}
+	}
+}
+
+func envInt(k string) int64 {
+	v, err := strconv.ParseInt(os.Getenv(k), 10, 64)
+	if err != nil {
+		return 0
+	}
+	return v
+}
+
+// Arm starts counting armed writes; the counters for crash/fail restart at 0.
+func Arm() {
+	mtx.Lock()
+	armed = true
+	armedCount = 0
+	mtx.Unlock()
+}
+
+// Disarm stops crash/fail injection.
+func Disarm() {
+	mtx.Lock()
+	armed = false
+	mtx.Unlock()
+}
+
+// SetCrashAt arranges for the process to be killed before the k-th armed write (0 = off).
+func SetCrashAt(k int64) { mtx.Lock(); crashAt = k; mtx.Unlock() }
+
+// SetFailAt makes the k-th armed write return ErrInjected (0 = off).
+func SetFailAt(k int64) { mtx.Lock(); failAt = k; mtx.Unlock() }
+
+// SetSiteFilter restricts armed counting to sites containing s.
+func SetSiteFilter(s string) { mtx.Lock(); siteFilter = s; mtx.Unlock() }
+
+// SetObserver installs a callback run (under the hook's lock) for every write.
+func SetObserver(f func(n int64, site string)) { mtx.Lock(); observer = f; mtx.Unlock() }
+
+// SetPointFunc installs a callback for Point.
+func SetPointFunc(f func(site string)) { mtx.Lock(); pointFn = f; mtx.Unlock() }
+
+// Counts returns (all writes seen, armed writes seen).
+func Counts() (int64, int64) {
+	mtx.Lock()
+	defer mtx.Unlock()
+	return total, armedCount
+}
+
+// BeforeWrite is called immediately before a durable write.
+func BeforeWrite(site string) error {
+	mtx.Lock()
+	defer mtx.Unlock()
+	total++
+	if !armed && armFile != "" {
+		if _, err := os.Stat(armFile); err == nil {
+			armed = true
+			armedCount = 0
+		}
+	}
+	if observer != nil {
+		observer(total, site)
+	}
+	if !armed {
+		if logFile != nil {
+			fmt.Fprintf(logFile, "- %d %s\n", total, site)
+		}
+		return nil
+	}
+	if siteFilter != "" && !strings.Contains(site, siteFilter) {
+		if logFile != nil {
+			fmt.Fprintf(logFile, "~ %d %s\n", total, site)
+		}
+		return nil
+	}
+	armedCount++
+	if logFile != nil {
+		fmt.Fprintf(logFile, "+ %d %s\n", armedCount, site)
+	}
+	if crashAt > 0 && armedCount == crashAt {
+		if logFile != nil {
+			fmt.Fprintf(logFile, "! crash before %d %s\n", armedCount, site)
+			logFile.Sync()
+		}
+		syscall.Kill(syscall.Getpid(), syscall.SIGKILL)
+		select {} // never proceed to the write
+	}
+	if failAt > 0 && armedCount == failAt {
+		if logFile != nil {
+			fmt.Fprintf(logFile, "! fail %d %s\n", armedCount, site)
+		}
+		return ErrInjected
+	}
+	return nil
+}
+
+// Point marks a place between two critical sections.
+func Point(site string) {
+	mtx.Lock()
+	f := pointFn
+	var d time.Duration
+	if delays != nil {
+		var ok bool
+		if d, ok = delays[site]; !ok {
+			d = delays["*"]
+		}
+	}
+	mtx.Unlock()
+	if f != nil {
+		f(site)
+	}
+	if d > 0 {
+		time.Sleep(d)
+	}
+}
